@@ -3,6 +3,7 @@
 // against a scripted Minter node (the api_service.ClientService seam, no sockets) for seeded block
 // histories, with every persisted cursor x every acknowledgeable nonce enumerated as restart points,
 // Minter API errors (whose retry sleeps run on the synctest fake clock) and lost/torn/garbage status files.
+//
 //go:debug asynctimerchan=0
 package conn
 
